@@ -1,6 +1,7 @@
 package contract
 
 import (
+	"errors"
 	"math/big"
 
 	"github.com/aergoio/aergo/v2/state"
@@ -195,11 +196,50 @@ func VF_C20_a_recovery() {
 	vf.Observe("seq", int32(seq))
 }
 
+// governance: the arguments are concrete well-formed requests (a stake of 10000 aergo that would succeed outside a
+// read-only context, an unstake, a BP vote, a parameter vote, an unknown type); what is symbolic is the context.
+// encoding/json is replaced under the engine by vfJSONUnmarshal/vfJSONMarshal, exact for these payloads.
+var vfGovArgs = []struct {
+	t   byte
+	arg string
+}{
+	{'S', "10000 aergo"},
+	{'U', "10000 aergo"},
+	{'V', `["16Uiu2HAmGiJ2QgVAWHMUtzLKKNM5eFUJ3Ds3FN7nYJq1mHN5ZPj9"]`},
+	{'D', `["BPCOUNT","3"]`},
+	{'X', ""},
+}
+
+func vfJSONUnmarshal(data []byte, v interface{}) error {
+	ci, ok := v.(*types.CallInfo)
+	if !ok {
+		vf.Fail("harness.json-stub")
+		return errors.New("vf: unsupported json target")
+	}
+	switch string(data) {
+	case `{"Name":"v1stake"}`:
+		ci.Name = "v1stake"
+	case `{"Name":"v1unstake"}`:
+		ci.Name = "v1unstake"
+	case `{"Name":"v1voteBP","Args":["16Uiu2HAmGiJ2QgVAWHMUtzLKKNM5eFUJ3Ds3FN7nYJq1mHN5ZPj9"]}`:
+		ci.Name = "v1voteBP"
+		ci.Args = []interface{}{"16Uiu2HAmGiJ2QgVAWHMUtzLKKNM5eFUJ3Ds3FN7nYJq1mHN5ZPj9"}
+	case `{"Name":"v1voteDAO","Args":["BPCOUNT","3"]}`:
+		ci.Name = "v1voteDAO"
+		ci.Args = []interface{}{"BPCOUNT", "3"}
+	default:
+		vf.Fail("harness.json-stub")
+		return errors.New("vf: unsupported json input")
+	}
+	return nil
+}
+
+func vfJSONMarshal(v interface{}) ([]byte, error) { return []byte(`"?"`), nil }
+
 func VF_C20_a_governance() {
 	w := vfNewWorld(true)
-	kinds := []byte{'S', 'U', 'V', 'D', 'X'}
-	g := kinds[vf.Choice("gType", len(kinds))]
-	r := luaGovernance(nil, 0, _Ctype_char(g), vfCStr("arg", vf.Choice("argLen", vf.Param("maxLen", 4)+1)))
+	g := vfGovArgs[vf.Choice("gType", len(vfGovArgs))]
+	r := luaGovernance(nil, 0, _Ctype_char(g.t), _Cfunc_CString(g.arg))
 	vf.Reach("C20.a.governance")
 	w.unchanged("C20.a.governance")
 	vf.Assert(r != nil, "C20.a.governance.refused")
